@@ -178,3 +178,5 @@ def t1(ctx):
                "well-formedness (C03); forcing options and set_node_age_fn are outside the contract (requires)")
     for c in CONTRACTS:
         verify_contract(ctx, SUITE, c, sentinels=False, replay=replay_ages)
+    from contracts import _wf
+    _wf.validate(ctx)
